@@ -121,6 +121,12 @@ fn units() -> Vec<(&'static str, &'static str, &'static str)> {
             "#[::entrait::entrait(DRepoImpl, delegate_by = ref)]\npub trait @T@ { fn dget(&self, x: u64) -> u64; }\npub struct MyDRepo;\n#[::entrait::entrait(ref)]\nimpl DRepoImpl for MyDRepo {\n    pub fn dget(_deps: &impl ::core::any::Any, x: u64) -> u64 { x + 15 }\n}\nimpl ::core::convert::AsRef<dyn DRepoImpl<App>> for App { fn as_ref(&self) -> &(dyn DRepoImpl<App> + 'static) { &MyDRepo } }\n",
             "{ let app = ::entrait::Impl::new(App); <::entrait::Impl<App> as @T@>::dget(&app, 5) }",
         ),
+        // the delegation-target trait is called `T` - a name the generated selector trait must not use for a parameter of its own
+        (
+            "inversion_target_named_t",
+            "#[::entrait::entrait(T, delegate_by = DelegateTNamed)]\npub trait @T@ { fn tget(&self, x: u64) -> u64; }\npub struct MyTNamed;\n#[::entrait::entrait]\nimpl T for MyTNamed {\n    pub fn tget(_deps: &impl ::core::any::Any, x: u64) -> u64 { x + 31 }\n}\nimpl DelegateTNamed<App> for App { type Target = MyTNamed; }\n",
+            "{ let app = ::entrait::Impl::new(App); <::entrait::Impl<App> as @T@>::tget(&app, 5) }",
+        ),
         // the (possibly hostile-named) entraited leaf trait - implemented for `Impl<T>` only where `T` implements it - is the *dependency bound* of other entraited items: the macro copies the
         // user's bound, and must not mistake it for the std item of the same name
         (
@@ -200,6 +206,10 @@ fn shadow_allowed(nm: &str, usrc: &str, excl_marker_shadows: bool, excl_blanket_
         return false;
     }
     if excl_blanket_methods && nm.starts_with("blanket trait") {
+        return false;
+    }
+    // (a unit that itself declares an item called `T` cannot live next to a local `struct T`: the user's own clash)
+    if nm == "T" && usrc.contains("entrait(T,") {
         return false;
     }
     // async_trait's own expansion refers to a bare `Box` (a foreign macro's capture, not entrait's)
